@@ -743,6 +743,7 @@ fn c16(st: &mut Stats, _max: u32) -> Res {
 macro_rules! bcall {
     ($f:ident name) => { $f.name("n") };
     ($f:ident ty) => { $f.ty::<Vec<u8>>() };
+    ($f:ident compact) => { $f.compact::<u32>() };
     ($f:ident type_name) => { $f.type_name("Vec<u8>") };
     ($f:ident docs_always) => { $f.docs_always(&["d1", "d2"]) };
     ($f:ident index) => { $f.index(77) };
@@ -757,6 +758,16 @@ macro_rules! order_case {
         let got = Type::builder().path(Path::new("O", "m")).composite(c);
         let want = Type::new(Path::from_segments(vec!["m", "O"]).unwrap(), vec![], TypeDefComposite::new(vec![Field::new(Some("n"), meta_type::<Vec<u8>>(), Some("Vec<u8>"), vec!["d1", "d2"])]), vec![]);
         ensure!(got == want, "field builder calls in order {} produced {:?}, expected {:?}", stringify!($($m),*), got, want);
+    }};
+}
+macro_rules! corder_case {
+    ($st:ident, [$($m:ident),*]) => {{
+        $st.cases += 1;
+        $st.nontrivial += 1;
+        let c = Fields::named().field(|f| { $( let f = bcall!(f $m); )* f });
+        let got = Type::builder().path(Path::new("O", "m")).composite(c);
+        let want = Type::new(Path::from_segments(vec!["m", "O"]).unwrap(), vec![], TypeDefComposite::new(vec![Field::new(Some("n"), meta_type::<scale::Compact<u32>>(), Some("Vec<u8>"), vec!["d1", "d2"])]), vec![]);
+        ensure!(got == want, "field builder calls in order {} (compact member) produced {:?}, expected {:?}", stringify!($($m),*), got, want);
     }};
 }
 macro_rules! vorder_case {
@@ -794,6 +805,30 @@ fn c17_orders(st: &mut Stats) -> Res {
     order_case!(st, [docs_always, ty, type_name, name]);
     order_case!(st, [docs_always, type_name, name, ty]);
     order_case!(st, [docs_always, type_name, ty, name]);
+    corder_case!(st, [name, compact, type_name, docs_always]);
+    corder_case!(st, [name, compact, docs_always, type_name]);
+    corder_case!(st, [name, type_name, compact, docs_always]);
+    corder_case!(st, [name, type_name, docs_always, compact]);
+    corder_case!(st, [name, docs_always, compact, type_name]);
+    corder_case!(st, [name, docs_always, type_name, compact]);
+    corder_case!(st, [compact, name, type_name, docs_always]);
+    corder_case!(st, [compact, name, docs_always, type_name]);
+    corder_case!(st, [compact, type_name, name, docs_always]);
+    corder_case!(st, [compact, type_name, docs_always, name]);
+    corder_case!(st, [compact, docs_always, name, type_name]);
+    corder_case!(st, [compact, docs_always, type_name, name]);
+    corder_case!(st, [type_name, name, compact, docs_always]);
+    corder_case!(st, [type_name, name, docs_always, compact]);
+    corder_case!(st, [type_name, compact, name, docs_always]);
+    corder_case!(st, [type_name, compact, docs_always, name]);
+    corder_case!(st, [type_name, docs_always, name, compact]);
+    corder_case!(st, [type_name, docs_always, compact, name]);
+    corder_case!(st, [docs_always, name, compact, type_name]);
+    corder_case!(st, [docs_always, name, type_name, compact]);
+    corder_case!(st, [docs_always, compact, name, type_name]);
+    corder_case!(st, [docs_always, compact, type_name, name]);
+    corder_case!(st, [docs_always, type_name, name, compact]);
+    corder_case!(st, [docs_always, type_name, compact, name]);
     vorder_case!(st, [index, fields, docs_always, discriminant]);
     vorder_case!(st, [index, fields, discriminant, docs_always]);
     vorder_case!(st, [index, docs_always, fields, discriminant]);
